@@ -1,4 +1,4 @@
-import HmsProofs.Lemmas.SimHExec
+import HmsProofs.Lemmas.SimHMatch
 /-!
 # Expressions of the general fragment: the induction steps
 -/
@@ -360,6 +360,132 @@ theorem pe_step (G : GCtx) (hG : G.OK) (n : Nat) (hPE : ∀ m, m ≤ n → PE G 
           | ok v =>
             obtain ⟨hfr2, mem2, hrc, hml2⟩ := h2
             refine ⟨by rw [hfr2, hfr1], mem2, (hrun1.trans (Runs.call hA icall hrc)).cast (by omega),
+              hml1.trans hml2⟩
+    case matchE sp ty c arms dflt =>
+      cases dflt with
+      | none => simp [Frag.okGE] at hok
+      | some d =>
+      simp only [Frag.okGE, Bool.and_eq_true] at hok
+      obtain ⟨⟨hc, harms⟩, hd⟩ := hok
+      simp only [Frag.varsGE, Frag.callsGE] at hres hcalls
+      rw [resolved_append, resolved_append] at hres
+      rw [callsOK_append, callsOK_append] at hcalls
+      obtain ⟨hvc, hva, hvd⟩ := hres
+      obtain ⟨hcc, hca, hcd⟩ := hcalls
+      simp only [Frag.namesGE, Frag.varsGE, Frag.callsGE, List.mem_append] at hT
+      have hTc : ∀ x ∈ Frag.namesGE c, x ∈ A.T := by
+        intro x hx; simp only [Frag.namesGE, List.mem_append] at hx
+        rcases hx with hx | hx
+        · exact hT x (Or.inl (Or.inl hx))
+        · exact hT x (Or.inr (Or.inl hx))
+      have hTd : ∀ x ∈ Frag.namesGE d, x ∈ A.T := by
+        intro x hx; simp only [Frag.namesGE, List.mem_append] at hx
+        rcases hx with hx | hx
+        · exact hT x (Or.inl (Or.inr (Or.inr hx)))
+        · exact hT x (Or.inr (Or.inr (Or.inr hx)))
+      have hTa : ∀ a ∈ arms, ∀ x ∈ Frag.namesGE a.2, x ∈ A.T := by
+        intro a ha x hx
+        rcases namesGArms_mem arms a ha x hx with h | h
+        · exact hT x (Or.inl (Or.inr (Or.inl h)))
+        · exact hT x (Or.inr (Or.inr (Or.inl h)))
+      simp only [cgE] at hpl ⊢
+      generalize hCC : cgE G.mod (ρS scopes) A.φ c lm = CC at hpl ⊢
+      generalize hAf : freshLabel G.mod CC.2 "match_after" = aft at hpl ⊢
+      generalize hTs : armTests G.mod sp arms aft.2 = ts at hpl ⊢
+      generalize hDf : freshLabel G.mod ts.2.2 "match_default" = dfl at hpl ⊢
+      generalize hBs : cgArms G.mod (ρS scopes) A.φ sp aft.1 arms ts.2.1 dfl.2 = bs at hpl ⊢
+      generalize hCD : cgE G.mod (ρS scopes) A.φ d bs.2 = CD at hpl ⊢
+      obtain ⟨h6, hplE⟩ := hpl.append
+      obtain ⟨h5, hplD⟩ := h6.append
+      obtain ⟨h4, hplL⟩ := h5.append
+      obtain ⟨h3, hplB⟩ := h4.append
+      obtain ⟨h2, hplJ⟩ := h3.append
+      obtain ⟨hplC, hplT⟩ := h2.append
+      obtain ⟨ijd, _⟩ := hplJ.instr (i := .jump dfl.1) rfl
+      obtain ⟨edfl, hL2⟩ := hplL.label
+      obtain ⟨idrop, _⟩ := hL2.instr (i := .drop) rfl
+      obtain ⟨ija, hE2⟩ := hplE.instr (i := .jump aft.1) rfl
+      obtain ⟨eaft, _⟩ := hE2.label
+      have hnJ : nI [((Instr.jump dfl.1 : SInstr), sp)] = 1 := rfl
+      have hnL : nI [((Instr.label dfl.1 : SInstr), sp), (.drop, sp)] = 1 := rfl
+      have hnE : nI [((Instr.jump aft.1 : SInstr), sp), (.label aft.1, sp)] = 1 := rfl
+      simp only [nI_append, hnJ, hnL, hnE] at hplT ijd hplB edfl idrop hplD ija eaft ⊢
+      simp only [← Nat.add_assoc] at hplT ijd hplB edfl idrop hplD ija eaft ⊢
+      have hlit : ∀ a ∈ arms, ∀ l ∈ a.1, Frag.litE l = true := fun a ha => (okGArms_mem arms harms a ha).1
+      -- the control value
+      have h1 := ihn A hA c st ip stk mem lm scopes vm hc
+        (by simp only [Frag.wsGE, Bool.and_eq_true]; exact ⟨hvc, hcc⟩) hTc (hCC ▸ hplC) hrel hsp
+      rw [hCC] at h1
+      rw [evalExpr_matchE]
+      rcases hec : evalExpr G.cfg n c st with ⟨r1, st1⟩
+      rw [hec] at h1
+      cases r1 with
+      | error c1 => exact h1.error_n _
+      | ok cv =>
+        obtain ⟨hfr1, mem1, hrun1, hml1⟩ := h1
+        simp only []
+        have hsp1 := hsp.world st1 hfr1
+        have hrel1 : StRel G.mod A.T A.N A.σ G.lim A.mp scopes vm st1.scopes mem1 := by
+          rw [hfr1]; exact hrel.memLe hml1
+        have htest := armTests_run G A hA sp ⟨cv, none⟩ stk mem1 st1.world arms aft.2 (ip + nI CC.1) hlit
+          (hTs ▸ hplT)
+        rw [hTs] at htest
+        have hlen : arms.length = ts.2.1.length := by rw [← hTs, armTests_length]
+        rcases evalArms_spec G.cfg arms n cv d st1 hlit with h | ⟨msg, h⟩ | ⟨i, a, f', hi, hh, hf, h⟩ | ⟨hh, f', hf, h⟩
+        · rw [h]; trivial
+        · rw [h]; trivial
+        · -- arm `i` is taken
+          rw [h]
+          have hh' : armsHit st1.world.heap cv arms = some (some i) := hh
+          rw [hh'] at htest
+          obtain ⟨nm, hnm, hrunT⟩ := htest
+          have ha : a ∈ arms := List.mem_of_getElem? hi
+          obtain ⟨lmi, idr, hplA, ijmp⟩ := cgArms_at A G.mod (ρS scopes) A.φ sp aft.1 arms ts.2.1 dfl.2 _ hlen
+            (hBs ▸ hplB) i a nm hi hnm
+          have hdrop := Runs.of_runsTo (RunsTo.of_exec1 (fun k => reach_drop G.code G.lim
+            (baseOf G.s A.fn A.rest A.mp st1.world) (A.lab nm) k stk mem1 ⟨A.fn, 0⟩ A.rest A.c rfl hA.code sp ⟨cv, none⟩
+            idr))
+          have hpre : Runs G.code G.lim G.s A.fn A.rest A.mp ip stk mem st.world (A.lab nm + 1) stk mem1 st1.world :=
+            (hrun1.trans hrunT).trans hdrop
+          have h2 := hPE f' (by omega) A hA a.2 st1 (A.lab nm + 1) stk mem1 lmi scopes vm
+            (okGArms_mem arms harms a ha).2 (wsGArms_mem scopes A.φ arms hva hca a ha) (hTa a ha) hplA hrel1 hsp1
+          rcases hea : evalExpr G.cfg f' a.2 st1 with ⟨r2, st2⟩
+          rw [hea] at h2
+          cases r2 with
+          | error c2 => exact SimGE.error_after _ [] hpre hfr1 hml1 h2
+          | ok v =>
+            obtain ⟨hfr2, mem2, hrun2, hml2⟩ := h2
+            have hj := Runs.of_runsTo (RunsTo.of_exec1 (fun k => reach_jump G.code G.lim
+              (baseOf G.s A.fn A.rest A.mp st2.world) _ k (⟨v, none⟩ :: stk) mem2 ⟨A.fn, 0⟩ A.rest A.c rfl hA.code
+              (A.lab aft.1) sp ijmp))
+            exact ⟨frame_trans hfr1 hfr2, mem2, ((hpre.trans hrun2).trans hj).cast (by rw [eaft]; omega),
+              hml1.trans hml2⟩
+        · -- the default
+          rw [h]
+          have hh' : armsHit st1.world.heap cv arms = some none := hh
+          rw [hh'] at htest
+          have hjd := Runs.of_runsTo (RunsTo.of_exec1 (fun k => reach_jump G.code G.lim
+            (baseOf G.s A.fn A.rest A.mp st1.world) _ k (⟨cv, none⟩ :: stk) mem1 ⟨A.fn, 0⟩ A.rest A.c rfl hA.code
+            (A.lab dfl.1) sp ijd))
+          have hdrop := Runs.of_runsTo (RunsTo.of_exec1 (fun k => reach_drop G.code G.lim
+            (baseOf G.s A.fn A.rest A.mp st1.world) (A.lab dfl.1) k stk mem1 ⟨A.fn, 0⟩ A.rest A.c rfl hA.code sp
+            ⟨cv, none⟩ (by rw [edfl]; exact idrop)))
+          have hpre : Runs G.code G.lim G.s A.fn A.rest A.mp ip stk mem st.world
+              (ip + nI CC.1 + nI ts.1 + 1 + nI bs.1 + 1) stk mem1 st1.world :=
+            (((hrun1.trans htest).trans hjd).trans hdrop).cast (by rw [edfl])
+          have h2 := hPE f' (by omega) A hA d st1 (ip + nI CC.1 + nI ts.1 + 1 + nI bs.1 + 1) stk mem1 bs.2 scopes vm hd
+            (by simp only [Frag.wsGE, Bool.and_eq_true]; exact ⟨hvd, hcd⟩) hTd (hCD ▸ hplD) hrel1 hsp1
+          rw [hCD] at h2
+          rcases hed : evalExpr G.cfg f' d st1 with ⟨r2, st2⟩
+          rw [hed] at h2
+          cases r2 with
+          | error c2 => exact SimGE.error_after _ [] hpre hfr1 hml1 h2
+          | ok v =>
+            obtain ⟨hfr2, mem2, hrun2, hml2⟩ := h2
+            have hj := Runs.of_runsTo (RunsTo.of_exec1 (fun k => reach_jump G.code G.lim
+              (baseOf G.s A.fn A.rest A.mp st2.world) _ k (⟨v, none⟩ :: stk) mem2 ⟨A.fn, 0⟩ A.rest A.c rfl hA.code
+              (A.lab aft.1) sp ija))
+            exact ⟨frame_trans hfr1 hfr2, mem2, ((hpre.trans hrun2).trans hj).cast (by rw [eaft]; omega),
               hml1.trans hml2⟩
 
 end HmsProofs.Sim
